@@ -31,6 +31,7 @@ func checkC08(rep *Report, rng *Rng, tier string) {
 	if tier == "thorough" {
 		n = 5000
 	}
+	dmodelOn = true
 	rep.Rule = "seeded histories over a file-backed store with 0..many Flush calls, re-opens, pending unflushed changes and runs of 1..8 consecutive FlushRevert calls (also past the first flush); after every step the contents of the store, the collection names, the file length and a fresh Store opened on a copy of the file image are compared with the stack of flushed reference states; a watchdog detects non-termination; memory-only stores must reject FlushRevert; non-trivial = contains at least one revert and 8 ops"
 	HistoryLoop(rep, rng, n, func(r *Rng, i int) (RunCfg, []Op, string) {
 		g := GenCfg{FileBacked: i%10 != 9, NColls: 1 + r.Intn(3), NOps: 25 + r.Intn(50), Structural: true, CollMgmt: r.Chance(1, 2), PrioMode: r.Intn(4)}
@@ -60,9 +61,10 @@ func checkC08(rep *Report, rng *Rng, tier string) {
 			}
 			ops = append(ops, Op{K: "revert"}, Op{K: "names"}, Op{K: "revert"})
 		}
-		d := CfgDesc{Check: "C08", FileBacked: g.FileBacked, DumpEvery: true, ReopenDump: true, Post: "revert-size"}
+		d := CfgDesc{Check: "C08", FileBacked: g.FileBacked, DumpEvery: true, ReopenDump: true, Post: "revert-size", Digests: true}
 		return d.RunCfg(), ops, d.String()
 	}, nil)
+	rep.Extra["steps_compared_with_byte_level_model_DStore"] = dmodelSteps
 }
 
 func checkC12(rep *Report, rng *Rng, tier string) {
